@@ -178,7 +178,11 @@ def log_scalar(x):
         k = x.e.decl().kind()
         ch = x.e.children()
         if k == z3.Z3_OP_DIV and all(_provably_pos(c, S.to_real(t)) for t in ch):
-            return S.sub(log_scalar(S.wrap(ch[0])), log_scalar(S.wrap(ch[1])))
+            num = S.wrap(ch[0])
+            if z3.is_rational_value(ch[0]) or z3.is_int_value(ch[0]):
+                num = S.pynum(num) if not isinstance(num, Sym) else (num.e.as_fraction() if z3.is_rational_value(num.e) else num.e.as_long())
+                num = float(num) if num != 1 else 1
+            return S.sub(log_scalar(num), log_scalar(S.wrap(ch[1])))
         if k == z3.Z3_OP_MUL and len(ch) <= 4 and all(_provably_pos(c, S.to_real(t)) for t in ch):
             r = log_scalar(S.wrap(ch[0]))
             for t in ch[1:]:
@@ -252,6 +256,8 @@ def _exp_ax(x, e):
 
 @model("numpy.log")
 def np_log(x):
+    if hasattr(x, "log_hook"):          # log(diagonal(cholesky factor)) of the abstract matrix layer
+        return x.log_hook()
     return _map(x, log_scalar)
 
 
@@ -430,7 +436,9 @@ def np_zeros_like(x):
 
 @model("numpy.eye")
 def np_eye(n, dtype=None):
-    return Tensor((n, n), lambda i, j: S.ite(S.cmp("==", i, j), 1.0, 0.0))
+    t = Tensor((n, n), lambda i, j: S.ite(S.cmp("==", i, j), 1.0, 0.0))
+    t.is_identity = True
+    return t
 
 
 MODELS["numpy.identity"] = np_eye
@@ -577,6 +585,14 @@ def np_atleast_1d(x):
 
 @model("numpy.diag")
 def np_diag(x):
+    if hasattr(x, "nf"):
+        from . import matalg
+        r = matalg.mat_diag(x)
+        if r is not None:
+            return r
+        r = matalg.diagonal(x)
+        if r is not None:
+            return r
     x = to_tensor(x, fresh=False).frozen()
     if x.ndim == 1:
         n = x.shape[0]
@@ -584,6 +600,17 @@ def np_diag(x):
     if x.ndim == 2:
         return Tensor((x.shape[0],), lambda i: x.at(i, i))
     raise Unsupported("diag rank")
+
+
+@model("numpy.diagonal")
+def np_diagonal(x):
+    if hasattr(x, "nf"):
+        from . import matalg
+        r = matalg.diagonal(x)
+        if r is not None:
+            return r
+    x = to_tensor(x, fresh=False).frozen()
+    return Tensor((x.shape[0],), lambda i: x.at(i, i))
 
 
 @model("numpy.sum")
@@ -978,10 +1005,13 @@ def _opaque_matrix(stem, shape):
 
 @model("numpy.linalg.cholesky")
 def np_cholesky(K):
-    """element-level stand-in: some lower-triangular factor (its algebraic contract L L^T = K lives in the abstract
-    matrix layer; contracts that need it do not go through this model)"""
+    """abstract matrix layer when the argument is in normal form (pyvc.matalg); otherwise an element-level stand-in:
+    some lower-triangular factor"""
     if ctx().concrete:
         raise Unsupported("cholesky in the concrete cross-check")
+    if hasattr(K, "nf"):
+        from . import matalg
+        return matalg.cholesky(K)
     return _opaque_matrix("chol", K.shape)
 
 
@@ -989,6 +1019,9 @@ def np_cholesky(K):
 def sp_solve_triangular(A, b, lower=False, trans=0):
     if ctx().concrete:
         raise Unsupported("solve_triangular in the concrete cross-check")
+    if hasattr(A, "nf"):
+        from . import matalg
+        return matalg.solve_triangular(A, b, lower=lower, trans=trans)
     return _opaque_matrix("trisolve", b.shape)
 
 
